@@ -1134,6 +1134,9 @@ fn run(ctx: &RunCtx) {
             Err(m) => CaseResult::Fail(Failure::new(m, case.to_json())),
         }
     });
+    if ctx.child.is_none() {
+        let _ = std::fs::remove_dir_all(&base);
+    }
 }
 
 /// a tree processed from inside it: `input` is a spelling of the current directory
